@@ -31,7 +31,7 @@ func init() {
 		Assumptions: []string{"the SQL table has PRIMARY KEY (id, created) as documented", "DynamoDB attribute_not_exists(<hash key>) rejects an existing item with the same primary key"},
 		Tech:        "static analysis: request-shape analysis (constant-folded struct-literal fields, SQL constants tokenised), guarded-by-condition, lock-state dataflow, interface method-set and who-writes checks across all Metastore implementations",
 		NeedU1:      true,
-		Rules:       []func(*Ctx){ruleC13InsertOnly, ruleC13NoOtherWrites, ruleC13StoreResult, ruleC13ConsistentReads, ruleC13FieldFidelity, ruleC13KeyFidelity, lockBalancedRule("C13", 3, lockDomSpec{pkgPersist, "MemoryMetastore", "RWMutex"})},
+		Rules:       []func(*Ctx){ruleC13InsertOnly, ruleC13NoOtherWrites, ruleC13StoreResult, ruleC13ConsistentReads, ruleC13FieldFidelity, ruleC13KeyFidelity, ruleC13DecodeIntoFresh, ruleC13MemoryLatestByKey, lockBalancedRule("C13", 3, lockDomSpec{pkgPersist, "MemoryMetastore", "RWMutex"})},
 	})
 }
 
@@ -880,10 +880,13 @@ func ruleC13FieldFidelity(c *Ctx) {
 			}
 		})
 		c.check(good, "persistence.SQLMetastore.Store/row", u.pos(st.Pos()), "key_record = string(json.Marshal(envelope))", "the stored key_record is not the JSON of the envelope passed to Store")
-		pe := u.Func(pkgPersist, "parseEnvelope")
+		_ = u.Func(pkgPersist, "parseEnvelope")
 		good = false
-		if pe != nil {
-			allInstrs(pe, func(i ssa.Instruction) {
+		for _, pf := range u.RepoFuncs {
+			if pf.Pkg == nil || pf.Pkg.Pkg.Path() != pkgPersist || pf.Blocks == nil {
+				continue
+			}
+			allInstrs(pf, func(i ssa.Instruction) {
 				if staticIs(i, "encoding/json.Unmarshal") {
 					if mi, ok := callOf(i).Args[1].(*ssa.MakeInterface); ok {
 						if p, ok := mi.X.Type().(*types.Pointer); ok {
